@@ -126,7 +126,7 @@ def run_impl(line):
             for s in steps:
                 copy = Bits(b); cs = _st(copy)
                 try:
-                    if s[0] == 'setint': b[int(s[1])] = int(s[2]); w = None
+                    if s[0] == 'setint': b[int(s[1])] = (operand(s[2]) if s[2][0] == 'b' else int(s[2])); w = None
                     elif s[0] == 'setslice':
                         v = b if s[4] == 'self' else operand(s[4]); w = None if s[4] == 'self' else _Watch(v); b[slice(unoi(s[1]), unoi(s[2]), unoi(s[3]))] = v
                     elif s[0] == 'setlist':
@@ -306,7 +306,7 @@ def check_impl(line, res):
             if k >= len(got): return bad('history stopped after %d steps without an exception' % k)
             m = len(cur); err = False; nxt = None
             if s[0] == 'setint':
-                i, v = int(s[1]), int(s[2])
+                i, v = int(s[1]), (unbt(s[2])[1] if s[2][0] == 'b' else int(s[2]))   # a bit vector on the right is compared by value
                 if v not in (0, 1) or not (-m <= i < m): err = True
                 else: nxt = list(cur); nxt[i] = v
             elif s[0] == 'setslice':
@@ -409,6 +409,8 @@ def index_lines(m, x, rng, frac=1.0):
         yield 'bits.getint %s %d' % (A, i), 'getint'
         for v in (0, 1): yield 'bits.seq %s | setint %d %d' % (A, i, v), 'setint'
     yield 'bits.seq %s | setint 0 2' % A, 'setint'
+    for i in (0, m - 1, -1):
+        for t in ('b1:0', 'b1:1', 'b3:0', 'b3:1', 'b2:2'): yield 'bits.seq %s | setint %d %s' % (A, i, t), 'setint-bitsvalue'
     for s, e, st in all_slices():
         if frac < 1.0 and rng.random() >= frac: continue
         yield 'bits.getslice %s %s %s %s' % (A, oi(s), oi(e), oi(st)), 'getslice'
